@@ -48,7 +48,7 @@ inline void gen_backend(Plan& p, Rng& r, bool allow_long_sleep = false)
   }
   p.cfg["soft"] = soft;
   p.cfg["hard"] = hard;
-  p.cfg["transit_cap"] = r.pick<int64_t>({1, 2, 4, 16, 256});
+  p.cfg["transit_cap"] = r.pick<int64_t>({1, 2, 3, 4, 5, 12, 16, 100, 256}); // (quill rounds it up to a power of two)
   p.cfg["grace_us"] = r.pick<int64_t>({0, 1, 1, 20, 1000});
   p.cfg["sleep_ns"] = r.pick<int64_t>({0, 500, 100000, 100000});
   if (allow_long_sleep && r.chance(1, 8))
@@ -111,7 +111,7 @@ inline size_t max_total_record(int fo)
 {
   FOInfo f = fo_info(fo);
   // stay below capacity - 5 % (the reader publishes its position in 5 % batches; see C09)
-  return f.max_cap * 94 / 100;
+  return f.reach_cap() * 94 / 100;
 }
 
 inline size_t max_payload(int fo)
